@@ -221,6 +221,7 @@ int Canon::canon(int t) {
   if (getenv("IRFLOW_DEBUG2") && x.op == TT.OP_FMUL) fprintf(stderr, "canon fmul: %s | a0op=%s a1op=%s v1=%g\n", TT.str(t).c_str(), OPS.name(TT.t[x.a[0]].op).c_str(), OPS.name(TT.t[x.a[1]].op).c_str(), TT.cfval(x.a[1]));
   if (!x.a.empty() && x.op != TT.OP_SYM && x.op != TT.OP_PTR && x.bytes <= 8 && x.op != TT.OP_CONCAT) { // integer constant folding
     bool allc = true; for (int a : x.a) if (TT.t[a].op != TT.OP_C) allc = false;
+    if (op == "uitofp" || op == "sitofp") allc = false; // the result is a floating value: folded by its own rule below
     if (allc) { int tmp = TT.mk(x.op, x.a, x.k, x.bytes); std::unordered_map<int, uint64_t> em; uint64_t v; if (evalBits(tmp, 0, em, v)) { int by = x.bytes; int64_t sv = by < 8 ? (int64_t)(v << (64 - 8 * by)) >> (64 - 8 * by) : (int64_t)v; memo[t] = TT.cint(sv, by); return memo[t]; } }
   }
   auto mk = [&](int o, std::vector<int> a, int64_t k, int by) { if (commutative(o) && a.size() == 2 && a[1] < a[0]) std::swap(a[0], a[1]); if ((o == TT.OP_FMA) && a[1] < a[0]) std::swap(a[0], a[1]); return TT.mk(o, a, k, by); };
@@ -292,6 +293,11 @@ int Canon::canon(int t) {
     else if (y.op == TT.OP_PIECE) r = canon(TT.mk(TT.OP_PIECE, {y.a[0]}, y.k + lo, len));
     else if (y.op == TT.OP_CONCAT) { int pos = 0; for (int a : y.a) { int w = TT.t[a].bytes; if (lo >= pos && lo + len <= pos + w) { r = (lo == pos && len == w) ? a : canon(TT.mk(TT.OP_PIECE, {a}, lo - pos, len)); break; } pos += w; } }
   }
+  else if ((op == "uitofp" || op == "sitofp" || x.op == TT.OP_ZEXT || x.op == TT.OP_SEXT) && x.a.size() == 1 && TT.t[x.a[0]].op == TT.OP_SELECT) {
+    // a conversion commutes with a choice: cast(select(c,a,b)) == select(c,cast(a),cast(b))
+    const Term y = TT.t[x.a[0]]; r = canon(TT.mk(TT.OP_SELECT, {y.a[0], canon(TT.mk(x.op, {y.a[1]}, x.k, x.bytes)), canon(TT.mk(x.op, {y.a[2]}, x.k, x.bytes))}, 0, x.bytes));
+  }
+  else if ((op == "uitofp" || op == "sitofp") && x.a.size() == 1 && TT.t[x.a[0]].op == TT.OP_C) { int sb = (int)x.k; int64_t v = TT.t[x.a[0]].k; if (sb > 0 && sb < 64) { uint64_t m = ((uint64_t)1 << sb) - 1; uint64_t u = (uint64_t)v & m; v = op == "uitofp" ? (int64_t)u : ((u >> (sb - 1)) & 1 ? (int64_t)(u | ~m) : (int64_t)u); } r = TT.cfp((double)v, x.bytes); }
   else if (x.op == TT.OP_SELECT && x.a[1] == x.a[2]) r = x.a[1];
   else if (x.op == TT.OP_SELECT && TT.t[x.a[0]].op == TT.OP_C) r = x.a[(TT.t[x.a[0]].k & 1) ? 1 : 2];
   else if (x.op == TT.OP_SELECT && x.bytes == 1 && TT.t[x.a[1]].op == TT.OP_C && TT.t[x.a[2]].op == TT.OP_C && ((TT.t[x.a[1]].k ^ TT.t[x.a[2]].k) & 1)) r = (TT.t[x.a[1]].k & 1) ? x.a[0] : canon(TT.mk(TT.OP_NOT, {x.a[0]}, 0, 1)); // select(c,true,false) == c
@@ -725,6 +731,13 @@ CmpResult Comparer::compare(int a, int b, const std::string &mode, bool fp, int 
     { // members are arithmetic expressions: compare them up to polynomial identity
       std::set<std::string> pa, pb; for (int t : sa) pa.insert(polyStr(N.norm(t, fp), 1u << 30)); for (int t : sb) pb.insert(polyStr(N.norm(t, fp), 1u << 30));
       if (!N.capped && !N.overflow && pa == pb && (ka == kb || pa.size() == 1)) { res.how = "minmax-set (members up to polynomial identity)"; nMinmax++; return res; }
+    }
+    { // both sides are a min (or max) over independent input symbols and the member sets differ: the functions differ
+      // (make the extra member of one side the strict extreme and the other side cannot see it)
+      auto allSyms = [&](const std::set<int> &ss) { for (int t : ss) if (TT.t[t].op != TT.OP_SYM) return false; return !ss.empty(); };
+      if (ok && ka == kb && ka != 0 && sa != sb && allSyms(sa) && allSyms(sb)) {
+        std::ostringstream ea2, eb2; for (int t : sa) ea2 << TT.str(t) << ";"; for (int t : sb) eb2 << TT.str(t) << ";";
+        res.v = V_VIOLATION; res.how = "min/max over different sets of independent inputs"; res.got = (ka > 0 ? "max{" : "min{") + ea2.str() + "}"; res.expected = (kb > 0 ? "max{" : "min{") + eb2.str() + "}"; nRefuted++; return res; }
     }
     std::ostringstream ea, eb; ea << (ka > 0 ? "max{" : ka < 0 ? "min{" : "{"); for (int t : sa) ea << TT.str(t, 5) << ";"; ea << "}"; eb << (kb > 0 ? "max{" : kb < 0 ? "min{" : "{"); for (int t : sb) eb << TT.str(t, 5) << ";"; eb << "}";
     res.got = ea.str(); res.expected = eb.str();
